@@ -1,6 +1,7 @@
 import NeumannModel.TwoPC.Lemmas
 import NeumannModel.TwoPC.LemmasPart
 import NeumannModel.TwoPC.LemmasLate
+import NeumannModel.TwoPC.LemmasVote
 /-
   C03 — "Two-phase commit: every participant reaches the coordinator's one decision".
   ONLY the property theorems and their non-vacuity examples; helpers are in `Lemmas*.lean`.
@@ -8,11 +9,14 @@ import NeumannModel.TwoPC.LemmasLate
   Every theorem quantifies over every state reachable from an arbitrary initial configuration
   (any number of shards with arbitrary contents, any timeout / concurrency limit) through ANY finite
   sequence of events of the property's alphabet (`Reach`): new transactions (unboundedly many, any
-  participants / keys), delivery of any pool message any number of times in any order (or never:
-  duplication / reordering / delay / loss), coordinator timeout sweeps and clock ticks at any
-  point, coordinator commit / abort calls at any point, late / duplicate votes.  Outside the
-  alphabet (see DESIGN §7 C03): participant-side `cleanup_stale` / `recover` and participant lock
-  expiry — the two `…_outside_quantifier_witness` theorems show what they would break.
+  participants / keys, operations of all ten `Transaction` kinds), delivery of any pool message any
+  number of times in any order (or never: duplication / reordering / delay / loss), coordinator
+  timeout sweeps and clock ticks at any point, coordinator commit / abort calls at any point, late /
+  duplicate votes, and forged / mis-tagged votes (`Ev.forge`: any NO / CONFLICT vote, any YES vote
+  tagged with a shard that is not a participant).  Outside the alphabet (see DESIGN §7 C03):
+  participant-side `cleanup_stale` / `recover`, participant lock expiry, and workloads that break the
+  lock discipline (`lockDiscipline`: two transactions reach the same storage key under different
+  logical keys) — the `…_outside_quantifier_witness` theorems show what they break.
 -/
 namespace Neumann.TwoPC.Props
 open Neumann.TwoPC
@@ -30,12 +34,32 @@ theorem decide_once (stores : List Store) (tt mc lt : Nat) {s s' : Sys}
   | true => exact hinv.excl tx hd'
   | false => exact fun h => hinv.excl tx h hd'
 
-/-- The coordinator decides commit only if every participant voted YES (the YES votes, produced by
-    the participants' `prepare`, are in the pool). -/
+/-- The coordinator decides commit only if every participant voted YES: for every participant shard a
+    YES vote is in the pool AND that shard's own `prepare` answered YES (`cast`) — whatever forged or
+    mis-tagged votes (NO / CONFLICT for any shard, YES tagged with a non-participant shard, votes for
+    transactions not begun yet) the network delivered before, between or after the real ones. -/
 theorem commit_needs_all_yes (stores : List Store) (tt mc lt : Nat) {s : Sys}
     (hr : Reach (Sys.init stores tt mc lt) s) (tx : Nat) (hd : (tx, true) ∈ s.decided) :
-    ∀ sp ∈ s.specs, sp.id = tx → ∀ sh ∈ sp.shards, ∃ h ks, Msg.vote tx sh (.yes h ks) ∈ s.msgs :=
-  ((InvA.init stores tt mc lt).reach hr).commitYes tx hd
+    ∀ sp ∈ s.specs, sp.id = tx → ∀ sh ∈ sp.shards,
+      (∃ h ks, Msg.vote tx sh (.yes h ks) ∈ s.msgs) ∧ (tx, sh, true) ∈ s.cast := by
+  intro sp hsp hid sh hsh
+  have hv := ((InvA.init stores tt mc lt).reach hr).commitYes tx hd sp hsp hid sh hsh
+  refine ⟨hv, ?_⟩
+  obtain ⟨h, ks, hm⟩ := hv
+  have hV := VInv.reach hr
+  apply hV.yesCast tx sh h ks hm
+  have hf := findSpec_of_mem hsp hV.specUniq
+  rw [hid] at hf
+  simp only [isParticipant, hf, List.contains_iff_mem]
+  exact hsh
+
+/-- `cast` is exactly the log of the participants' own answers: one event appends to it only by
+    delivering a PREPARE to an existing shard, and what it appends is that participant's answer. -/
+theorem cast_is_the_participants_own_answers (s : Sys) (e : Ev) :
+    (s.step e).cast = s.cast ∨
+    ∃ i tx sh ops p, e = .deliver i ∧ s.msgs[i]? = some (Msg.prepare tx sh ops) ∧ s.parts[sh]? = some p ∧
+      (s.step e).cast = s.cast ++ [(tx, sh, (p.prepare s.now s.nextHandle tx ops).2.isYes)] :=
+  cast_step s e
 
 /-- No participant applies a transaction's writes unless the decision was commit. -/
 theorem no_apply_without_commit (stores : List Store) (tt mc lt : Nat) {s : Sys}
@@ -65,7 +89,7 @@ theorem abort_restores_shard (stores : List Store) (tt mc lt : Nat) {s : Sys}
     (hr : Reach (Sys.init stores tt mc lt) s) (e : Ev) (ha : s.inAlphabet e = true)
     (hne : ∀ i tx sh, e = .deliver i → s.msgs[i]? ≠ some (Msg.commit tx sh)) :
     ∀ sh k, sget ((s.step e).storeOf sh) k = sget (s.storeOf sh) k :=
-  (((SInv.init stores tt mc lt).reach hr).step e ha).2 hne
+  ((sinv_of_reach hr).1.step (sinv_of_reach hr).2 e ha).2 hne
 
 /-- … and over any stretch of execution without a commit delivery. -/
 theorem abort_restores_shard_run (stores : List Store) (tt mc lt : Nat) {s : Sys}
@@ -171,7 +195,7 @@ theorem late_prepare_of_finished_tx_harmless (stores : List Store) (tt mc lt : N
           ∀ sh2 k, sget ((s''.step (.deliver j)).storeOf sh2) k = sget (s''.storeOf sh2) k) ∧
         (∀ sh' to sh2 k, sget ((s''.step (.cleanupStale sh' to)).storeOf sh2) k = sget (s''.storeOf sh2) k) ∧
         (∀ sh' to sh2 k, sget ((s''.step (.recover sh' to)).storeOf sh2) k = sget (s''.storeOf sh2) k)) := by
-  have hS := (SInv.init stores tt mc lt).reach hr
+  have hS := (sinv_of_reach hr).1
   have hP := hS p (List.mem_of_getElem? hp)
   obtain ⟨hparts, hmsgs⟩ := step_deliver_prepare hm hp
   obtain ⟨h1, h2, h3, h4⟩ := prepare_respects_others hP t ops
@@ -187,8 +211,8 @@ theorem late_prepare_of_finished_tx_harmless (stores : List Store) (tt mc lt : N
     exact ⟨rfl, hnone, abort_absent hnone, c, hc, hmsgs⟩
   · intro s'' hr''
     have hr2 : Reach (Sys.init stores tt mc lt) s'' := (Reach.step (.deliver i) hr rfl).trans hr''
-    refine ⟨?_, cleanupStale_keeps_data ((SInv.init stores tt mc lt).reach hr2),
-      recover_keeps_data ((SInv.init stores tt mc lt).reach hr2)⟩
+    refine ⟨?_, cleanupStale_keeps_data (sinv_of_reach hr2).1,
+      recover_keeps_data (sinv_of_reach hr2).1⟩
     intro j tx' sh' hj
     apply abort_restores_shard stores tt mc lt hr2 (.deliver j) rfl
     intro i' tx2 sh2 he hm2
@@ -261,6 +285,104 @@ theorem late_prepare_breaks_tryLockNoConflictCheckForKnownTx_witness :
     sget (resent.storeOf 0) 1 = some 5 ∧ sget (resent.storeOf 1) 2 = some 10 ∧
     -- and so does the participant's stale-prepared cleanup
     sget (cleaned.storeOf 0) 1 = some 5 ∧ sget (cleaned.storeOf 1) 2 = some 10 := by
+  decide
+
+/-! ### locks: what keeps concurrent transactions on overlapping keys apart -/
+
+/-- In every reachable state every prepared transaction holds, under its own handle, the lock of the
+    logical key of each of its operations (so two transactions prepared on the same participant never
+    share a logical key). -/
+theorem prepared_tx_holds_its_locks (stores : List Store) (tt mc lt : Nat) {s : Sys}
+    (hr : Reach (Sys.init stores tt mc lt) s) (p : Participant) (hp : p ∈ s.parts)
+    (pt : PreparedTx) (hpt : pt ∈ p.prepared) (op : Op) (hop : op ∈ pt.ops) :
+    ∃ l, findLock p.locks.locks op.key = some l ∧ l.tx = pt.tx ∧ l.handle = pt.handle :=
+  ((sinv_of_reach hr).1 p hp).held pt hpt op hop
+
+/-- A PREPARE — first, duplicate or late, of a live or of a finished transaction — never changes the
+    lock (holder and handle) of a key held by another transaction, never touches another transaction's
+    prepared record or any data, and is answered CONFLICT with the participant left exactly as it was
+    when one of its logical keys is held by another transaction. -/
+theorem prepare_never_moves_foreign_lock (stores : List Store) (tt mc lt : Nat) {s : Sys}
+    (hr : Reach (Sys.init stores tt mc lt) s) (p : Participant) (hp : p ∈ s.parts)
+    (tx : Nat) (ops : List Op) :
+    let r := p.prepare s.now s.nextHandle tx ops
+    r.1.store = p.store ∧
+    (∀ k l, findLock p.locks.locks k = some l → l.tx ≠ tx → findLock r.1.locks.locks k = some l) ∧
+    (∀ t', t' ≠ tx → findPrepared r.1.prepared t' = findPrepared p.prepared t') ∧
+    ((∃ op ∈ ops, ∃ l, findLock p.locks.locks op.key = some l ∧ l.tx ≠ tx) →
+      ∃ c, c ≠ tx ∧ r = (p, .conflict c)) :=
+  prepare_respects_others ((sinv_of_reach hr).1 p hp) tx ops
+
+/-- Workloads of Put / Delete / CompareAndSwap operations keep the lock discipline by construction
+    (logical key = storage key): for them the restriction on `begin` in the alphabet is vacuous. -/
+theorem lock_discipline_of_plain_ops (ops : List Op) (h : ∀ op ∈ ops, op.isPlain = true) :
+    lockDiscipline ops = true := by
+  apply (lockDiscipline_iff ops).2
+  intro a ha b hb he
+  have h1 := h a ha
+  have h2 := h b hb
+  cases a <;> cases b <;> simp_all [Op.isPlain, Op.writeKey, Op.undoKey, Op.key]
+
+/-! non-vacuity: a mixed-kind workload (Embed, TableUpdate, CompareAndSwap, NodeCreate, EdgeCreate) that
+    keeps the discipline, with forged votes in the schedule: tx 0 commits on both shards although a
+    stray YES tagged with shard 5, a forged NO for the not-yet-begun tx 1 and a late forged CONFLICT
+    were delivered; tx 1 is aborted by a forged NO and changes nothing. -/
+
+def mixedInit : Sys := Sys.init [[(1, 5), (tableK 3, .rows 4)], [(2, 6)]] 2 100 1000
+
+def mixedRun : List Ev :=
+  [ .begin [0, 1] [(0, [.embed 1 7, .tableUpdate 3 2 9, .cas 1 (some 5) 6]), (1, [.nodeCreate 2 4, .edgeCreate 2 3 1, .cas 2 none 1])] [],
+    .forge 0 5 (.yes 77 [1]),          -- msgs 2: stray YES from shard 5 (not a participant)
+    .forge 1 0 .no,                    -- msgs 3: NO for a transaction that does not exist yet
+    .deliver 2, .deliver 0, .deliver 1,-- stray vote recorded; both participants prepare: msgs 4, 5
+    .deliver 4, .deliver 5, .coordCommit 0, .deliver 6, .deliver 7,
+    .forge 0 1 (.conflict 9), .deliver 8,
+    .begin [0, 1] [(0, [.tableInsert 3 8]), (1, [.nodeDelete 2])] [],   -- tx 1: msgs 9, 10
+    .deliver 9, .deliver 3,            -- shard 0 prepares tx 1 (msgs 11 = its YES); the early forged NO is recorded as shard 0's vote
+    .deliver 10, .deliver 12,          -- shard 1 prepares (msgs 12 = its YES): all voted, not all YES -> msgs 13, 14 = ABORT(tx 1)
+    .deliver 13, .deliver 11 ]         -- shard 0 discards tx 1; its real YES arrives late and is rejected
+
+example : Reach mixedInit (mixedInit.run mixedRun) := reach_run .refl _ (by decide)
+example : (mixedInit.run mixedRun).decided = [(0, true), (1, false)] := by decide
+example : (mixedInit.run mixedRun).cast = [(0, 0, true), (0, 1, true), (1, 0, true), (1, 1, true)] := by decide
+example : (mixedInit.run mixedRun).discarded = [(0, 1)] := by decide
+-- Embed wrote "emb:k1", TableUpdate wrote the ROW key, CAS(k1: 5 -> 6) matched, CAS(k2: [] -> 1) did not (k2 = 6)
+example : sget ((mixedInit.run mixedRun).storeOf 0) (embK 1) = some (.vec 7) ∧
+    sget ((mixedInit.run mixedRun).storeOf 0) (rowK 3 2) = some (.row 2 9) ∧
+    sget ((mixedInit.run mixedRun).storeOf 0) (tableK 3) = some (.rows 4) ∧
+    sget ((mixedInit.run mixedRun).storeOf 0) 1 = some 6 ∧
+    sget ((mixedInit.run mixedRun).storeOf 1) (nodeK 2) = some (.node 4) ∧
+    sget ((mixedInit.run mixedRun).storeOf 1) (edgeK 2 3 1) = some .edge ∧
+    sget ((mixedInit.run mixedRun).storeOf 1) 2 = some 6 := by decide
+example : lock_discipline_of_plain_ops [.put 1 2, .cas 1 none 3, .del 1] (by decide) = rfl := rfl
+-- `prepared_tx_holds_its_locks` / `prepare_never_moves_foreign_lock` are not vacuous: after 15 events tx 1 is prepared on shard 0
+example : ((mixedInit.run (mixedRun.take 15)).parts[0]?.map (fun p => p.prepared.map (·.tx))) = some [1] := by decide
+
+/-- WITHOUT the lock discipline `abort_restores_shard` is false of the code as it is.  T0 = `Embed{k1}`
+    and T1 = `Put{"emb:k1"}` reach the same storage key under different logical keys (`k1` resp.
+    `"emb:k1"`), so both are prepared on shard 0 at the same time; T0's undo image of `"emb:k1"` is
+    "absent".  T1 is decided commit and applied on both shards; T0 times out and its ABORT deletes
+    `"emb:k1"`: an aborted transaction changed the shard, a committed write is lost, and shard 1 still
+    holds T1's other write (split).  Every event of the run is in the alphabet except the second
+    `begin`, which breaks the discipline. -/
+theorem abort_restores_shard_without_lock_discipline_witness :
+    let init := Sys.init [[], []] 2 100 1000
+    let b0 : Ev := .begin [0, 1] [(0, [.embed 1 7]), (1, [.put 2 8])] []
+    let b1 : Ev := .begin [0, 1] [(0, [.put (embK 1) 9]), (1, [.put 3 10])] []
+    let rest : List Ev := [ .deliver 0, .deliver 2, .deliver 3, .deliver 5, .deliver 6, .coordCommit 1,
+                            .deliver 7, .deliver 8, .tick 3, .sweep ]
+    let s1 := init.step b0
+    let s2 := s1.step b1
+    let s := s2.run rest
+    init.inAlphabet b0 = true ∧ s1.inAlphabet b1 = false ∧ s2.allIn rest = true ∧
+    -- both transactions were prepared on shard 0 together, under different logical keys
+    (s2.run (rest.take 2)).parts[0]?.map (fun p => p.locks.locks.map (fun l => (l.key, l.tx))) =
+      some [(embK 1, 1), (1, 0)] ∧
+    s.decided = [(1, true), (0, false)] ∧ s.applied = [(0, 1), (1, 1)] ∧
+    s.msgs[9]? = some (Msg.abort 0 0) ∧ s.inAlphabet (.deliver 9) = true ∧
+    sget (s.storeOf 0) (embK 1) = some 9 ∧ sget (s.storeOf 1) 3 = some 10 ∧
+    sget ((s.step (.deliver 9)).storeOf 0) (embK 1) = none ∧
+    sget ((s.step (.deliver 9)).storeOf 1) 3 = some 10 := by
   decide
 
 /-! ### the two counter-traces over the EXTENDED alphabet (outside C03's quantifier) -/
